@@ -52,12 +52,14 @@ def forbidden_hits(lean_dir, roots):
     return hits
 
 def property_modules(prop, lean_dir):
-    """Properties/Cxx.lean plus companion modules Properties/Cxx<letters>.lean (e.g. C02P, C05b)."""
-    d = os.path.join(lean_dir, "PoryProofs", "Properties")
+    """Properties/Cxx.lean plus companion modules Properties/Cxx<letters>.lean (e.g. C02P, C05b) —
+    only those registered in the root module lean/PoryProofs.lean (work in progress is not)."""
+    root = os.path.join(lean_dir, "PoryProofs.lean")
     out = []
-    for f in sorted(os.listdir(d)) if os.path.isdir(d) else []:
-        if re.match(r"^%s[A-Za-z]*\.lean$" % re.escape(prop), f): out.append(f[:-5])
-    return out
+    if os.path.exists(root):
+        for m in re.findall(r"^import\s+PoryProofs\.Properties\.(\S+)", open(root, encoding="utf-8").read(), re.M):
+            if re.match(r"^%s[A-Za-z]*$" % re.escape(prop), m): out.append(m)
+    return sorted(out)
 
 def check_proofs(prop, lean_dir, sh, thorough=False):
     mods = property_modules(prop, lean_dir)
